@@ -33,9 +33,10 @@ ModrmBase(d) ==
    LET regs == IF d.early THEN 0..7 ELSE {1} IN
    { MB(0, reg, 0) : reg \in regs } \cup { MB(1, reg, 5) : reg \in regs } \cup { MB(2, reg, 4) : reg \in regs }
    \cup { MB(0, reg, 5) : reg \in regs } \cup { MB(3, reg, 1) : reg \in regs }
+   \cup { MB(0, reg, 4) : reg \in regs }                                          \* SIB without displacement byte: with SIB base 101 the base-less form [index*scale+disp32]
    \cup (IF d.early THEN { MB(3, reg, rm) : reg \in 0..7, rm \in 0..7 } ELSE {})
 SibRich == { s * 64 + i * 8 + b : s \in 0..3, i \in {0,4,5,7}, b \in {0,4,5,7} }
-SibBase == { 36, 75 }                       \* [esp], [ebx+ecx*2]
+SibBase == { 36, 75, 141 }                  \* [esp], [ebx+ecx*2], [ecx*4+disp32] (mod 0) / [ebp+ecx*4+disp] (mod 1, 2)
 \* boundary values of an n-byte little-endian field
 LE(n, lo, mid, hi) == [k \in 1..n |-> IF k = 1 THEN lo ELSE IF k = n THEN hi ELSE mid]
 Bnd(n) == IF n = 1 THEN { <<0>>, <<1>>, <<127>>, <<128>>, <<255>> }
